@@ -219,7 +219,7 @@ fn exec_c(o: &Opts, doc: &serde_json::Value, dir: &Path) -> Result<Option<(Strin
             if debug {
                 argv.push("--debug".into());
             }
-            let io = if plan.is_empty() { Io::default() } else { Io { seed: None, plan: Some(plan.to_string()), log: None } };
+            let io = if plan.is_empty() { Io::default() } else { Io { seed: None, plan: Some(plan.to_string()), log: None, stdout_file: None } };
             let r = child::run(&legc::simc_path(o), &argv, hs, &io).map_err(|e| e.to_string())?;
             Ok(legc::judge_simc(&reference, &r).map(|(c, d)| (c.to_string(), d)))
         }
